@@ -10,6 +10,7 @@ pub fn generate(seed: u64, tier: &str, sink: &mut Sink) {
     // "every request": also the ones sent while following redirects (peer, target form and Host of each hop)
     crate::p_c09::generate_chains(seed ^ 0xC08C, if thorough { 3000 } else { 250 }, true, false, sink);
     let mut tunnel_seen = 0usize;
+    let mut k = 0usize;
     let schemes = ["http", "https"];
     // (as written, host_str expected, is_domain)
     let hosts = [("Example.COM", "example.com"), ("a.b.c", "a.b.c"), ("127.0.0.1", "127.0.0.1"), ("[::1]", "[::1]"), ("[2001:DB8::1]", "[2001:db8::1]")];
@@ -57,6 +58,16 @@ pub fn generate(seed: u64, tier: &str, sink: &mut Sink) {
                                         url.push('#');
                                         url.push_str(f);
                                     }
+                                    // the caller may have set Host fields of its own (on the request, or inherited from a
+                                    // session): the request still carries exactly one, the URL's
+                                    k += 1;
+                                    let pre: Vec<Step> = match k % 5 {
+                                        1 => vec![Step::Header("Host".into(), b"one.example".to_vec())],
+                                        2 => vec![Step::Append("Host".into(), b"first.example".to_vec()), Step::Append("host".into(), b"second.example:81".to_vec())],
+                                        3 => vec![Step::Append("HOST".into(), b"a.example".to_vec()), Step::Append("Host".into(), b"b.example".to_vec()), Step::Append("Host".into(), b"c.example".to_vec())],
+                                        _ => vec![],
+                                    };
+                                    let caller_hosts = pre.len();
                                     let case = SendCase {
                                         method: "GET".into(),
                                         url: url.clone(),
@@ -66,7 +77,7 @@ pub fn generate(seed: u64, tier: &str, sink: &mut Sink) {
                                         compress: false,
                                         proxy: ProxyCfg { http: px.map(String::from), https: px.map(String::from), no_proxy: vec![] },
                                         params: vec![],
-                                        pre: vec![],
+                                        pre,
                                         body: BodyR::Empty,
                                         post: vec![],
                                         hops: vec![(vec![Seg::Data(OK_RESPONSE.to_vec())], None)],
@@ -142,6 +153,7 @@ pub fn generate(seed: u64, tier: &str, sink: &mut Sink) {
                                             format!("port={}", match port { None => "none", Some(p) if p == default_port => "default", _ => "other" }),
                                             format!("userinfo={}", us.is_some()),
                                             format!("fragment={}", fr.is_some()),
+                                            format!("caller-host-fields={}", caller_hosts),
                                             format!("proxycreds={}", px.map_or(false, |p| p.contains('@'))),
                                         ],
                                         op,
